@@ -22,7 +22,7 @@ Base == <<"w", "d">>
 
 \* does the entry's own name lexically leave its base?
 LexEscapes(e) ==
-  IF e.k = "named"
+  IF e.k \in {"named", "restore"}
   THEN LET target == IF e.nabs THEN Clean(e.name, TRUE) ELSE Clean(W \o e.name, TRUE)
            r == Rel(W, target)
        IN ~r.ok \/ (r.p # <<>> /\ r.p[1] = "..")
